@@ -8,7 +8,9 @@ from .. import scenario as sc, clauses as cl
 PROP = "C04"
 LEVEL = "exploration"
 RULE = ("Hypothesis scenarios restricted to deterministic objectives (LIN/SINLIN/ROSEN/HASHED/BOXDOMAIN, no noise) "
-        "and nsamples == 1, with all bound kinds, soft/hard restarts, regulariser, tiny budgets. The harness recomputes "
+        "and nsamples == 1, with all bound kinds, soft/hard restarts, regulariser, tiny budgets, projection-constrained scenarios (8%), and objectives that are "
+        "undefined (NaN) beyond a hyperplane 0.5-10 rhobeg from x0 (a sixth; two thirds of those with soft restarts that append random points; finite values are judged). "
+        "Profile budget-enum: each generated scenario (nf <= 40, 20% with projections) is re-run with maxfun = 1..nf - exhaustive inside the scenario. The harness recomputes "
         "sum(r^2)+h(x) for every recorded call. Every-iteration form: once per main-loop iteration the best value the model "
         "holds (incumbent or saved point) must not exceed the minimum over the calls made so far. Non-trivial = the best recorded evaluation is not the last one of the "
         "run's accepted sequence (a saved/discarded point mattered: best index < last index), or the run ended on a "
